@@ -55,16 +55,17 @@ type regime struct {
 	key       string   // check-name prefix, lower case
 	countries []string // values of Identity.Country to validate with
 	prefixes  []string // textual prefixes the normaliser is expected to strip
+	suffixes  []string // textual suffixes the normaliser is expected to strip (CH: MWST / TVA / IVA)
 	// also: alternative tax country codes the published regime file lists and
 	// normalisation keeps (XI / XU for GB): identities of those countries are
 	// subject to the same rule
-	also []string
-	alphabet  string   // national alphabet (substitutions, random strings)
-	ref       func(code string) refResult
-	valid     func(s src) string // a code the reference calls valid (constructed)
-	shaped    func(s src) string // right shape and length, random check character(s)
-	special   func(s src) string // lands on the special remainder branch (may be nil)
-	lengths   []int              // national lengths (random strings use these and +-1)
+	also     []string
+	alphabet string // national alphabet (substitutions, random strings)
+	ref      func(code string) refResult
+	valid    func(s src) string // a code the reference calls valid (constructed)
+	shaped   func(s src) string // right shape and length, random check character(s)
+	special  func(s src) string // lands on the special remainder branch (may be nil)
+	lengths  []int              // national lengths (random strings use these and +-1)
 	// law reports whether the single-digit-error law is asserted for position
 	// i of the (valid) code: the scheme provably detects every substitution of
 	// one decimal digit by another there. nil: never asserted.
@@ -194,7 +195,7 @@ var regimeList = []*regime{
 		},
 	},
 	{
-		key: "ch", countries: []string{"CH"}, prefixes: []string{"CH"}, alphabet: digits + "E", lengths: []int{10},
+		key: "ch", countries: []string{"CH"}, prefixes: []string{"CH"}, suffixes: []string{"MWST", "TVA", "IVA"}, alphabet: digits + "E", lengths: []int{10},
 		ref: chRef, law: lawAllDigits,
 		valid: func(s src) string {
 			return retry(chRef, func() string {
@@ -736,6 +737,23 @@ func formatCode(s src, r *regime, code string) (string, string) {
 	}
 	if lower > 0 && out != strings.ToUpper(out) {
 		tags = append(tags, "lowercase")
+	}
+	if len(r.suffixes) > 0 && s.n("suffix", 2) == 0 {
+		sf := r.suffixes[s.n("sfx", len(r.suffixes))]
+		switch s.n("sfxcase", 3) {
+		case 0:
+			sf = strings.ToLower(sf)
+		case 1:
+			sf = sf[:1] + strings.ToLower(sf[1:2]) + sf[2:]
+		}
+		if s.n("sfxsep", 2) == 0 {
+			sf = separators[s.n("sepch", len(separators))] + sf
+		}
+		if s.n("sfxtail", 3) == 0 {
+			sf += []string{" ", "."}[s.n("sfxtailch", 2)]
+		}
+		out += sf
+		tags = append(tags, "suffix")
 	}
 	if len(r.prefixes) > 0 && s.n("prefix", 2) == 0 {
 		p := r.prefixes[s.n("pfx", len(r.prefixes))]
